@@ -1,7 +1,7 @@
 (* C10 — parts of the full statement that are false of the code as written (each is a finding). *)
 From Coq Require Import String List Bool Permutation.
 Import ListNotations.
-Require Import V.Lib.PyStr V.Args.Model.
+Require Import V.Lib.PyStr V.Args.Model V.Args.Proofs V.Args.Minimal V.Args.Reports.
 Open Scope string_scope.
 
 Definition rA   := mk_ref "stage1.A:ref" "A:ref" true "/I/stages/stage1/A".
@@ -65,3 +65,124 @@ Proof.
   split; [apply perm_swap|]. vm_compute. repeat split; reflexivity.
 Qed.
 Print Assumptions C10_value_rescanned_refuted.
+
+(* ------------------------------------------------------------------------------------------------
+   Minimality of the hypothesis `separated` = sep_mix /\ NoDup /\ sep_occ (Minimal.separated_clauses):
+   for each clause, references and arguments that satisfy the other clauses and on which the
+   sequential algorithm differs from the specification. *)
+Ltac differ := let H := fresh in intros H; vm_compute in H; discriminate H.
+
+(* without "no reference written in both spellings" (F10b) *)
+Theorem C10_mix_clause_needed_refuted :
+  exists refs ps, NoDup refs /\ sep_occ refs ps /\ resolve_args refs (flatten ps) <> spec refs ps.
+Proof.
+  exists [rA], [Tok "stage1.A:ref"; Lit " "; Tok "A:ref"]. split; [|split].
+  - apply nodupb_sound. reflexivity.
+  - apply sep_occb_sound. vm_compute. reflexivity.
+  - differ.
+Qed.
+Print Assumptions C10_mix_clause_needed_refuted.
+
+(* without "no reference declared twice": a reference whose value holds its own spelling is
+   substituted twice (declared once, the result is the specification) *)
+Definition rSelf := mk_ref "stage0.X/f:output" "X/f:output" true "see stage0.X/f:output".
+Theorem C10_nodup_clause_needed_refuted :
+  exists r ps, sep_mix [r; r] ps /\ sep_occ [r; r] ps /\
+               resolve_args [r; r] (flatten ps) <> spec [r; r] ps /\
+               resolve_args [r] (flatten ps) = spec [r; r] ps.
+Proof.
+  exists rSelf, [Tok "stage0.X/f:output"]. split; [|split; [|split]].
+  - apply sep_mixb_sound. reflexivity.
+  - apply sep_occb_sound. vm_compute. reflexivity.
+  - differ.
+  - vm_compute. reflexivity.
+Qed.
+Print Assumptions C10_nodup_clause_needed_refuted.
+
+(* without "a spelling that is looked for occurs only as the tokens equal to it" (F10): the relative
+   spelling inside a longer token; the absolute spelling inside a longer token *)
+Theorem C10_occ_clause_needed_refuted :
+  (exists refs ps, sep_mix refs ps /\ NoDup refs /\ resolve_args refs (flatten ps) <> spec refs ps) /\
+  (exists r ps, sep_mix [r] ps /\ NoDup [r] /\ has_tok (r_rel r) ps = false /\
+                resolve_args [r] (flatten ps) <> spec [r] ps).
+Proof.
+  split.
+  - exists [rA; rBA], [Tok "BA:ref"; Lit " "; Tok "A:ref"]. split; [|split].
+    + apply sep_mixb_sound. reflexivity.
+    + apply nodupb_sound. reflexivity.
+    + differ.
+  - exists rA, [Tok "xstage1.A:ref"]. split; [|split; [|split]].
+    + apply sep_mixb_sound. reflexivity.
+    + apply nodupb_sound. reflexivity.
+    + reflexivity.
+    + differ.
+Qed.
+Print Assumptions C10_occ_clause_needed_refuted.
+
+(* the last clause cannot be asked of the original arguments only (sep_occ0): what an earlier
+   reference has substituted is scanned again (F10c) *)
+Theorem C10_partial_clause_needed_refuted :
+  exists refs ps, sep_mix refs ps /\ NoDup refs /\ sep_occ0 refs ps /\
+                  resolve_args refs (flatten ps) <> spec refs ps.
+Proof.
+  exists [rOut; rB], [Tok "stage0.A/o.txt:output"; Lit " "; Tok "B:ref"]. split; [|split; [|split]].
+  - apply sep_mixb_sound. reflexivity.
+  - apply nodupb_sound. reflexivity.
+  - apply sep_occ0b_sound. vm_compute. reflexivity.
+  - differ.
+Qed.
+Print Assumptions C10_partial_clause_needed_refuted.
+
+(* ------------------------------------------------------------------------------------------------
+   The extra hypotheses of C10_unused / C10_unresolved are needed. *)
+(* unused without `disjoint`: a stage-1 component declares A:ref (stage1.A) and stage0.A:ref and writes
+   "A:ref": `separated` holds, stage0.A is reported unused although its relative spelling is a token
+   (for the loader's reading of "A:ref" this report is right; declared the other way round the token
+   is taken by stage0.A — class F10) *)
+Theorem C10_unused_disjoint_needed_refuted :
+  exists refs ps, separated refs ps /\ ~ disjoint refs ps /\
+                  unused_refs refs (flatten ps) = ["stage0.A:ref"] /\ spec_unused refs ps = [].
+Proof.
+  exists [rA; rA0], [Tok "A:ref"]. split; [|split; [|split]].
+  - apply separatedb_sound. vm_compute. reflexivity.
+  - intros D. specialize (D rA rA0 "A:ref"). cbv beta in D.
+    assert (X : rA = rA0) by (apply D; [left; reflexivity|right; left; reflexivity|left; reflexivity|reflexivity|reflexivity]).
+    discriminate X.
+  - vm_compute. reflexivity.
+  - vm_compute. reflexivity.
+Qed.
+Print Assumptions C10_unused_disjoint_needed_refuted.
+
+(* unresolved without "every colon is the colon of a reference token": literal text holding ":ref"
+   after a character that cannot be part of a reference; a substituted value holding ":ref"; in both
+   every token is declared and the flag is raised (UndeclaredDataReferenceError).  And a "token" that
+   holds no ":<method>" (the code's recogniser makes none) is undeclared without raising it. *)
+Theorem C10_unresolved_colon_needed_refuted :
+  (exists refs ps, separated refs ps /\ spec_unresolved refs ps = false /\
+                   unresolved (resolve_args refs (flatten ps)) = true /\ same_tokenisation ps = true /\
+                   (forall r, In r refs -> r_sub r = true -> occurs ":" (r_val r) = false)) /\
+  (exists refs ps, separated refs ps /\ spec_unresolved refs ps = false /\
+                   unresolved (resolve_args refs (flatten ps)) = true /\ same_tokenisation ps = true /\
+                   (forall s, In (Lit s) ps -> occurs ":" s = false)) /\
+  (exists refs ps, separated refs ps /\ spec_unresolved refs ps = true /\
+                   unresolved (resolve_args refs (flatten ps)) = false).
+Proof.
+  split; [|split].
+  - exists [rA], [Tok "A:ref"; Lit " s/x/ :ref/"]. split; [|split; [|split; [|split]]].
+    + apply separatedb_sound. vm_compute. reflexivity.
+    + reflexivity.
+    + vm_compute. reflexivity.
+    + vm_compute. reflexivity.
+    + intros r [<-|[]] _. reflexivity.
+  - exists [rOut], [Tok "stage0.A/o.txt:output"]. split; [|split; [|split; [|split]]].
+    + apply separatedb_sound. vm_compute. reflexivity.
+    + reflexivity.
+    + vm_compute. reflexivity.
+    + vm_compute. reflexivity.
+    + intros s [H|[]]. discriminate H.
+  - exists [], [Tok "zzz"]. split; [|split].
+    + apply separatedb_sound. reflexivity.
+    + reflexivity.
+    + reflexivity.
+Qed.
+Print Assumptions C10_unresolved_colon_needed_refuted.
